@@ -124,13 +124,25 @@ def content_length_rule(rep, h, rid):
             ok = isinstance(body, ast.Name) and len(lens) == 1
             why = 'the body written is not a plain variable, or there is ' \
                   'not exactly one Content-Length header'
+            len_line = lens[0].lineno if lens else 0
             if ok:
                 le = lens[0].args[1]
-                # str(len(<same variable>))
-                ok = isinstance(le, ast.Call) and dotted(le.func) == 'str' \
-                    and le.args and isinstance(le.args[0], ast.Call) and \
-                    dotted(le.args[0].func) == 'len' and \
-                    norm(le.args[0].args[0]) == body.id
+                # str(len(<same variable>)); the length may have been put
+                # into a local first
+                inner = le.args[0] if isinstance(le, ast.Call) and \
+                    dotted(le.func) == 'str' and len(le.args) == 1 else None
+                if isinstance(inner, ast.Name):
+                    ds = [n for n in walk_no_nested(f.node)
+                          if isinstance(n, (ast.Assign, ast.AugAssign)) and
+                          any(norm(t) == inner.id for t in (
+                              n.targets if isinstance(n, ast.Assign)
+                              else [n.target]))]
+                    if len(ds) == 1 and isinstance(ds[0], ast.Assign) and \
+                            inner.id not in f.params:
+                        inner, len_line = ds[0].value, ds[0].lineno
+                ok = isinstance(inner, ast.Call) and \
+                    dotted(inner.func) == 'len' and len(inner.args) == 1 \
+                    and norm(inner.args[0]) == body.id
                 why = 'Content-Length is %s but the body written is %s' % (
                     norm(le), norm(body))
             if ok:
@@ -143,13 +155,13 @@ def content_length_rule(rep, h, rid):
                        isinstance(n.value, ast.Call) and
                        isinstance(n.value.func, ast.Attribute) and
                        n.value.func.attr == 'encode' and
-                       n.lineno < lens[0].lineno]
+                       n.lineno < len_line]
                 later = [n for n in walk_no_nested(f.node)
                          if isinstance(n, (ast.Assign, ast.AugAssign)) and
                          any(norm(t) == body.id for t in (
                              n.targets if isinstance(n, ast.Assign)
                              else [n.target])) and
-                         n.lineno > lens[0].lineno]
+                         n.lineno > len_line]
                 ok = bool(enc) and not later
                 why = 'the body variable is not encoded to bytes before ' \
                       'its length is taken (or is changed afterwards)'
@@ -689,12 +701,32 @@ def run(repo, rep, tier):
         raise AnalysisError('do_POST: no body-derived header text found')
     # ---- R4 ---------------------------------------------------------------
     inv = h.methods.get('invalid_method')
-    ok = inv is not None and any(
-        isinstance(c, ast.Call) and dotted(c.func) == 'self.send_http_error'
-        and c.args and norm(c.args[0]) == '405' and
-        any(k.arg == 'headers' and 'Allow' in norm(k.value)
-            for k in c.keywords)
-        for c in walk_no_nested(inv.node))
+    from ..flow import value_of
+    from ..inline import Flat
+    from ..paths import return_paths
+    from ..model import fold_const, NotConst
+
+    def is_405(func, e):
+        try:
+            return fold_const(value_of(func, e)) == 405
+        except NotConst:
+            return False
+    ok = False
+    if inv is not None:
+        ps_ = [p_ for p_ in she.params if p_ != 'self']
+        for c in walk_no_nested(inv.node):
+            if not (isinstance(c, ast.Call) and
+                    dotted(c.func) == 'self.send_http_error' and
+                    not any(isinstance(a_, ast.Starred) for a_ in c.args)):
+                continue
+            given = dict(zip(ps_, c.args))
+            given.update({k.arg: k.value for k in c.keywords if k.arg})
+            code = given.get(ps_[0]) if ps_ else None
+            hdrs = given.get('headers')
+            if code is not None and hdrs is not None and \
+                    is_405(inv, code) and \
+                    "'Allow'" in norm(value_of(inv, hdrs), 400):
+                ok = True
     r4.ob(ok, 'invalid_method')
     if not ok:
         rep.finding(r4, 'ListenerRequestHandler.invalid_method',
@@ -705,10 +737,16 @@ def run(repo, rep, tier):
     for v in VERBS:
         r4.sites += 1
         f = h.methods.get('do_' + v)
-        ok = f is not None and len(f.body) == 1 and \
-            isinstance(f.body[0], ast.Expr) and \
-            isinstance(f.body[0].value, ast.Call) and \
-            dotted(f.body[0].value.func) == 'self.invalid_method'
+        ok = f is not None
+        if ok:
+            # every way through the handler calls invalid_method()
+            ff = Flat(f, keep=('invalid_method',), aliases=True)
+            pths = return_paths(ff, max_paths=32, inline=False)
+            ok = bool(pths) and all(
+                any(isinstance(c, ast.Call) and
+                    dotted(c.func) == 'self.invalid_method'
+                    for st in p_.effects for c in ast.walk(st))
+                for p_ in pths)
         r4.ob(ok, 'do_' + v, {'verb': v})
         if not ok:
             rep.finding(r4, 'ListenerRequestHandler.do_' + v, 'do_' + v,
